@@ -291,8 +291,8 @@ Proof.
   - apply IH; [exact Hn0| |destruct w3; cbn in *; subst; lia].
     eapply (LP_intro n _ b1 (w_st w3) (w_saved w3) (w_saved w3)); auto; try lia; destruct w3; cbn in *; auto.
   - destruct w3; exact L1.
-  - assert (X : gc_pos (w_st (if has_best w3 then w3 else mark_best w3 [])) = true /\ w_saved (if has_best w3 then w3 else mark_best w3 []) = w_saved w3
-                /\ w_br (if has_best w3 then w3 else mark_best w3 []) = b1) by (destruct (has_best w3); destruct w3; cbn in *; auto).
+  - assert (X : gc_pos (w_st (if has_best w3 then w3 else mark_best (restore w3) [])) = true /\ w_saved (if has_best w3 then w3 else mark_best (restore w3) []) = w_saved w3
+                /\ w_br (if has_best w3 then w3 else mark_best (restore w3) []) = b1) by (destruct (has_best w3); destruct w3; cbn in *; auto).
     destruct X as (X1 & X2 & X3). destruct (policy_never _); [exact X1|]. apply G; auto. lia.
   - cbv zeta. destruct (_ || _); [destruct w3; exact L1|]. apply G; destruct w3; cbn in *; subst; auto; lia.
   - destruct (snd opt); [destruct w3; exact L1|].
